@@ -232,6 +232,9 @@ func runC15(c *fw.Case) {
 		m = base("garbage-pem")
 		m.cert = "-----BEGIN CERTIFICATE-----\nAAAA\n-----END CERTIFICATE-----"
 		recs = append(recs, m)
+		m = base("pem-block-with-empty-body")
+		m.cert = "-----BEGIN CERTIFICATE-----\n-----END CERTIFICATE-----"
+		recs = append(recs, m)
 		m = base("signature-not-base64")
 		m.sig = "!!!not base64!!!"
 		recs = append(recs, m)
